@@ -922,7 +922,12 @@ fn ops_text_of(ops: &[OpSpec], collide: bool) -> String {
             OpSpec::Use(0, n, _) => s.push_str(&format!("/{} gs\n", res_name(0, *n, collide))),
             OpSpec::Use(1, n, v) => if v % 2 == 0 { s.push_str(&format!("BT /{} 12 Tf ET\n", res_name(1, *n, collide))) } else { s.push_str(&format!("/{} 9.5 Tf\n", res_name(1, *n, collide))) },
             OpSpec::Use(2, n, _) => s.push_str(&format!("/{} Do\n", res_name(2, *n, collide))),
-            OpSpec::Use(3, n, v) => s.push_str(&format!("/{} {}\n", res_name(3, *n, collide), if v % 2 == 0 { "cs" } else { "CS" })),
+            OpSpec::Use(3, n, v) => match v % 3 {
+                0 => s.push_str(&format!("/{} cs\n", res_name(3, *n, collide))),
+                1 => s.push_str(&format!("/{} CS\n", res_name(3, *n, collide))),
+                // an inline image whose colour space is a resource name
+                _ => s.push_str(&format!("BI /W 1 /H 1 /BPC 8 /CS /{} ID\nA\nEI\n", res_name(3, *n, collide))),
+            },
             OpSpec::Use(4, n, v) => if v % 2 == 0 { s.push_str(&format!("/Pattern cs /{} scn\n", res_name(4, *n, collide))) } else { s.push_str(&format!("/Pattern CS 0.5 /{} SCN\n", res_name(4, *n, collide))) },
             OpSpec::Use(5, n, _) => s.push_str(&format!("/{} sh\n", res_name(5, *n, collide))),
             OpSpec::Use(_, n, v) => if v % 2 == 0 { s.push_str(&format!("/OC /{} BDC EMC\n", res_name(6, *n, collide))) } else { s.push_str(&format!("/Tag /{} DP\n", res_name(6, *n, collide))) },
@@ -1327,7 +1332,7 @@ fn random_pdoc(rng: &mut Rng, g: &Graph, o: DocOpts, res_gen: &mut dyn FnMut(&mu
                     // the same name in another category: the collision the per-category tables must keep apart
                     if rng.chance(1, 4) { (if o.all_kinds { rng.usize(7) } else { *rng.pick(&[0usize, 1, 2, 6]) }, r.name) } else { (r.kind, r.name) }
                 } else { (if o.all_kinds { rng.usize(7) } else { *rng.pick(&[0usize, 1, 2, 6]) }, 1 + rng.below(4)) };
-                ops.push(OpSpec::Use(kind, name, rng.below(2) as u8));
+                ops.push(OpSpec::Use(kind, name, rng.below(6) as u8));
             } else if c < 7 && !ids.is_empty() {
                 ops.push(OpSpec::Inline((0..1 + rng.below(2)).map(|_| *rng.pick(&ids)).collect()));
             } else {
@@ -1358,6 +1363,113 @@ fn count_doc(st: &mut dyn FnMut(&str), doc: &PDoc) {
         for o in &p.ops { if let OpSpec::Use(k, n, _) = o { by_name.entry(*n).or_default().insert(*k); } }
         if doc.collide && by_name.values().any(|s| s.len() > 1) { st("page=one-name-used-in-several-categories"); }
     }
+}
+
+/// compare a batch of page documents: `c20.tpage` on every document, `c20.frompage` on every page of it
+fn run_page_docs(driver: &Driver, st: &mut Stream, sf: &mut Stream, docs: &[(PDoc, Graph, Vec<u32>, Layout, u64)]) {
+    let mut reqs = vec![];
+    let mut cases = vec![];
+    let mut freqs = vec![];
+    let mut fcases = vec![];
+    for (doc, g, order, layout, pre) in docs {
+        let bytes = page_doc(doc, g, &[], *layout);
+        let page_fields: Vec<String> = order.iter().map(|i| doc.page_model(*i as usize)).collect();
+        reqs.push(format!("c20.tpage {} {} {} {}", g.len() + 2, pre, nodes_str(g), page_fields.join(" ")));
+        cases.push(json!({"kind": "page", "doc": hex(&bytes), "pages": order, "types": types_json(g), "pre": pre}));
+        for i in 0..doc.pages.len() {
+            freqs.push(format!("c20.frompage {}", doc.page_model(i)));
+            fcases.push(json!({"kind": "frompage", "doc": hex(&bytes), "pages": [i]}));
+        }
+    }
+    let resp = driver.ask(&reqs);
+    let risky: Vec<usize> = (0..cases.len()).filter(|i| has_cycle(&docs[*i].1)).collect();
+    let risky_json: Vec<Value> = risky.iter().map(|i| cases[*i].clone()).collect();
+    let mut risky_map: BTreeMap<usize, String> = BTreeMap::new();
+    for (i, r) in risky.iter().zip(run_in_children(&risky_json, 10).into_iter()) {
+        risky_map.insert(*i, match r { Ok(v) => v.as_str().unwrap_or("bad-child-answer").to_string(), Err(e) => e });
+    }
+    for i in 0..cases.len() {
+        let imp = match risky_map.remove(&i) { Some(a) => a, None => exec_page(&cases[i]) };
+        let g = &docs[i].1;
+        let typed = |o: u64| g.get(&o).map(|n| matches!(n.ty, NT::Res | NT::Form)).unwrap_or(false);
+        let model = canon_model_page(&resp[i], &typed);
+        st.count(if model.contains("err") { "outcome=some-err" } else { "outcome=all-ok" });
+        if model != imp {
+            st.case(&format!("{} # {}", reqs[i], cases[i]), &model, &imp, model.contains(':'));
+        } else {
+            st.case(&reqs[i], &model, &imp, model.contains(':'));
+        }
+    }
+    let fresp = driver.ask(&freqs);
+    for i in 0..fcases.len() {
+        let imp = exec_frompage(&fcases[i]);
+        let model = canon_model_frompage(&fresp[i]);
+        sf.count(if model == "err" { "outcome=err" } else { "outcome=ok" });
+        if model != imp {
+            sf.case(&format!("{} # {}", freqs[i], fcases[i]), &model, &imp, true);
+        } else {
+            sf.case(&freqs[i], &model, &imp, true);
+        }
+    }
+}
+
+/// Exhaustive small domains for the two decisions that depend on *where* something is found:
+///  * one resource name in every subset of the four copied categories × every sequence of ≤ 3 (quick: ≤ 2 plus
+///    the 3-sequences that start with two different categories) operations naming it — "already copied?" is a
+///    question per category;
+///  * every inheritable attribute (MediaBox, CropBox, Resources, Rotate) absent / own / parent / grand-parent /
+///    own + parent / parent + grand-parent, for a page two levels below the root, both entry points.
+fn page_exhaustive(driver: &Driver, thorough: bool) -> (Stream, Stream) {
+    let mut st = Stream::new("c20.page.exhaustive", true);
+    let mut sf = Stream::new("c20.frompage.exhaustive", true);
+    st.exhaustive = true;
+    sf.exhaustive = true;
+    let mut docs: Vec<(PDoc, Graph, Vec<u32>, Layout, u64)> = vec![];
+    let kinds = [0usize, 1, 2, 6];
+    let mut g = Graph::new();
+    g.insert(100, GNode { ty: NT::Dict, k: vec![], a: None, b: None });
+    g.insert(101, GNode { ty: NT::Form, k: vec![], a: None, b: None });
+    g.insert(102, GNode { ty: NT::Dict, k: vec![101], a: None, b: None });
+    // --- name collisions
+    let mut seqs: Vec<Vec<usize>> = vec![];
+    for a in kinds { seqs.push(vec![a]); for b in kinds { seqs.push(vec![a, b]); for c in kinds { if thorough || a != b { seqs.push(vec![a, b, c]); } } } }
+    for subset in 0..16u32 {
+        let res: Vec<ResSpec> = kinds.iter().enumerate().filter(|(i, _)| subset & (1 << i) != 0).map(|(_, k)| ResSpec {
+            kind: *k, name: 1, payload: 50 + *k as u64,
+            kids: match k { 0 => vec![100, 102], 1 => vec![102], 2 => vec![101], _ => vec![100] }, raw: None }).collect();
+        for sq in &seqs {
+            let p = simple_page(res.clone(), sq.iter().map(|k| OpSpec::Use(*k, 1, 0)).collect(), vec![]);
+            st.count(&format!("categories-holding-the-name={}", subset.count_ones()));
+            docs.push((flat_doc(vec![p], true), g.clone(), vec![0], PLAIN, 0));
+        }
+    }
+    // --- inheritance: page below node 2 below node 1 below the root
+    let places = 6u32;
+    let place = |code: u32| -> (bool, bool, bool) { match code { 0 => (false, false, false), 1 => (true, false, false), 2 => (false, true, false), 3 => (false, false, true), 4 => (true, true, false), _ => (false, true, true) } };
+    let font = |name: u64, tgt: u64| ResSpec { kind: 1, name, payload: 0, kids: vec![tgt], raw: None };
+    for code in 0..places.pow(4) {
+        let (m, c, r, ro) = (code % 6, code / 6 % 6, code / 36 % 6, code / 216 % 6);
+        // (own, parent, grand-parent) values: distinct per level
+        let lvl = |p: (bool, bool, bool), base: u64| -> [Option<u64>; 3] { [if p.0 { Some(base) } else { None }, if p.1 { Some(base + 1) } else { None }, if p.2 { Some(base + 2) } else { None }] };
+        let (mv, cv, rv) = (lvl(place(m), 10), lvl(place(c), 50), lvl(place(ro), 0));
+        let rotv = |x: Option<u64>| x.map(|v| [90u64, 180, 270][(v % 3) as usize]);
+        let rp = place(r);
+        // each level's dictionary has the font /F1 → a different object, so the copy tells which level was used
+        let resv = [if rp.0 { Some(vec![font(1, 100)]) } else { None }, if rp.1 { Some(vec![font(1, 102)]) } else { None }, if rp.2 { Some(vec![font(1, 101), font(2, 100)]) } else { None }];
+        let mut p = simple_page(vec![], vec![OpSpec::Use(1, 1, 0), OpSpec::Use(1, 2, 0)], vec![]);
+        p.attrs = Attrs { media: mv[0], crop: cv[0], rotate: rotv(rv[0]), res: resv[0].clone() };
+        p.parent = 2;
+        let tree = vec![
+            TNode { parent: None, attrs: Attrs { media: mv[2], crop: cv[2], rotate: rotv(rv[2]), res: resv[2].clone() }, res_indirect: code % 2 == 0 },
+            TNode { parent: Some(0), attrs: Attrs { media: mv[1], crop: cv[1], rotate: rotv(rv[1]), res: resv[1].clone() }, res_indirect: code % 3 == 0 },
+            TNode { parent: Some(1), attrs: Attrs::default(), res_indirect: false },
+        ];
+        let kids = vec![vec![Kid::Node(1)], vec![Kid::Node(2)], vec![Kid::Page(0)]];
+        docs.push((PDoc { tree, kids, pages: vec![p], collide: false }, g.clone(), vec![0], PLAIN, 0));
+    }
+    st.count(&format!("inheritance-placements={}", places.pow(4)));
+    run_page_docs(driver, &mut st, &mut sf, &docs);
+    (st, sf)
 }
 
 fn page_streams(driver: &Driver, seed: u64, n: u64) -> (Stream, Stream) {
@@ -2146,7 +2258,7 @@ fn run_import_cases(or: &mut Oracle, seed: u64, stream: &str, cases: Vec<ImportC
                 let imported = v["imported"].as_u64().unwrap_or(0);
                 match c.case.get("expect").and_then(|e| e.as_str()) {
                     Some("success") if imported == 0 => or.fail("witness-import-failed", &format!("{}: importing was expected to succeed: {}", c.label, v["stats"]), replay.clone()),
-                    Some("no-success") if imported != 0 => or.fail("witness-import-succeeded", &format!("{}: importing a cyclic source was expected to end with an error", c.label), replay.clone()),
+                    Some("no-success") if imported != 0 => or.fail("witness-import-succeeded", &format!("{}: importing was expected to end with an error", c.label), replay.clone()),
                     _ => {}
                 }
                 or.case(&c.label, c.nontrivial && imported > 0, || json!({"label": c.label, "imported": imported, "stats": v["stats"]}));
@@ -2389,6 +2501,11 @@ fn witnesses() -> Vec<ImportCase> {
         let p = base(vec![ResSpec { kind: 2, name: 1, payload: 0, kids: vec![200], raw: None }], vec![OpSpec::Other(0), use_(2, 1), OpSpec::Other(1)], vec![]);
         out.push(case(label, page_doc(&flat_doc(vec![p], false), &Graph::new(), &[(200, img, true)], PLAIN), vec![0], Some("success")));
     }
+    // D49 (fixed): an inline image cannot be written by serialize_ops; building must fail, not panic
+    {
+        let p = base(vec![ResSpec { kind: 3, name: 1, payload: 0, kids: vec![], raw: None }], vec![OpSpec::Other(0), OpSpec::Use(3, 1, 2), OpSpec::Other(1)], vec![]);
+        out.push(case("regression D49 page with an inline image", page_doc(&flat_doc(vec![p], false), &g, &[], PLAIN), vec![0], Some("no-success")));
+    }
     // --- the dimensions of the random documents, one fixed instance each
     // one name in four categories, used in both orders of first use
     for (label, order) in [("dimension: /R1 is a font, an XObject, an ExtGState and a property list (font first)", vec![1usize, 2, 0, 6]), ("dimension: /R1 in four categories (XObject first)", vec![2usize, 6, 1, 0, 2, 1])] {
@@ -2511,6 +2628,9 @@ pub fn run(driver: &Driver, seed: u64, thorough: bool, replay: Option<&serde_jso
     let (sp, sf) = page_streams(driver, seed, if thorough { 50_000 } else { 8000 });
     rep.streams.push(sp);
     rep.streams.push(sf);
+    let (ep, ef) = page_exhaustive(driver, thorough);
+    rep.streams.push(ep);
+    rep.streams.push(ef);
     rep.oracles.push(import_generated(seed, thorough));
     rep.oracles.push(import_corpus(seed, thorough));
     rep
